@@ -22,6 +22,7 @@ import SkModel.NameRx
 import SkModel.Cache
 import SkModel.Fault
 import SkModel.Spec.Lines
+import SkModel.Fast
 
 open Lean Sk
 
@@ -65,7 +66,7 @@ def toSDef (j : Json) : SDef :=
     match getD? j "hint" with
     | some h => some (tableFn ((asArr h).map asBool) false)
     | none => none
-  let pats := (arrF j "pats").toList.map fun p => tableFn ((asArr p).map toMatch) none
+  let pats := ((arrF j "pats").toList.map fun p => (asArr p).map toMatch).map fun a => tableFn a none
   { hint := hint, pats := pats, emptyRes := toMatch (fld j "empty"),
     store := boolF j "store", tag := optStr (fld j "tag"),
     fields := (getD? j "fields").map fun f => (asArr f).toList.map asStr }
@@ -77,7 +78,7 @@ def toCOut (j : Json) : COut :=
   | _ => .undec
 
 def toDef (j : Json) : Def :=
-  let cons := (arrF j "cons").toList.map fun c => tableFn ((asArr c).map toCOut) .undec
+  let cons := ((arrF j "cons").toList.map fun c => (asArr c).map toCOut).map fun a => tableFn a .undec
   let kind : Kind :=
     if strF j "type" == "seq" then
       .seq { start := toSDef (fld j "start"), body := (getD? j "body").map toSDef,
